@@ -190,6 +190,8 @@ class Evaluator:
         self._const_cache = {}
         self._const_busy = set()
         self._stack = []
+        self._lambdas = {}
+        self._bind_memo_for, self._bind_memo = None, {}
         self.assumptions = {}  # boolean term -> bool: mode facts fixed by the obligation (E4)
         self.bind = {}  # term -> concrete representative of its region (E4)
 
@@ -463,7 +465,7 @@ class Evaluator:
                 recv = self.expr(recv_node, fr)
                 args = [self.expr(a, fr) for a in e.args]
                 kw = {k.arg: self.expr(k.value, fr) for k in e.keywords if k.arg}
-                fr.summary.calls.append(("method:" + meth, [recv] + args, kw, e, tuple(fr.guard), tuple(fr.facts)))
+                fr.summary.calls.append(("method:" + meth, [recv] + args, kw, e, tuple(fr.guard), tuple(fr.facts), dict(fr.iters)))
                 if meth == "append" and isinstance(recv, list):
                     recv.append(args[0])
                     return
@@ -518,19 +520,22 @@ class Evaluator:
         except (_Break, _Continue) as ex:
             brk = ex
             t2 = True
-        if brk is not None:
-            fr.env["__loopctl__"] = True
+        ctl = brk is not None or f1.env.get("__loopctl__") or f2.env.get("__loopctl__")
         if t1 and t2:
-            if brk is not None and not isinstance(fr.env.get("__inloop__"), int):
-                pass
+            if ctl:
+                fr.env["__loopctl__"] = True
             return brk is None
         if t1:
             fr.env = f2.env
             fr.facts = f2.facts
+            if ctl:
+                fr.env["__loopctl__"] = True
             return False
         if t2:
             fr.env = f1.env
             fr.facts = f1.facts
+            if ctl:
+                fr.env["__loopctl__"] = True
             return False
         # merge
         env = {}
@@ -538,6 +543,8 @@ class Evaluator:
             a = f1.env.get(k, T("undef", (k,)))
             b = f2.env.get(k, T("undef", (k,)))
             env[k] = a if tm.veq(a, b) else self.merge(c, a, b)
+        if ctl:
+            env["__loopctl__"] = True
         fr.env = env
         return False
 
@@ -807,7 +814,9 @@ class Evaluator:
                 return self.bind[r]
             if not isinstance(e, (ast.Name, ast.Constant)):
                 b = self.bind
-                r = tm.subst(r, lambda t: b.get(t) if isinstance(t, T) else None)
+                if self._bind_memo_for is not b:
+                    self._bind_memo_for, self._bind_memo = b, {}
+                r = tm.subst(r, lambda t: b.get(t) if isinstance(t, T) else None, self._bind_memo)
         return r
 
     def hazard(self, fr, exc, operand, node):
@@ -931,7 +940,21 @@ class Evaluator:
         return self.merge(c, self.expr(e.body, fr), self.expr(e.orelse, fr))
 
     def e_Lambda(self, e, fr):
-        return T("lambda", (ast.dump(e),))
+        key = ast.dump(e)
+        self._lambdas[key] = (e, fr)
+        return T("lambda", (key,))
+
+    def apply_lambda(self, lam, args, fr):
+        node, lfr = self._lambdas[lam.args[0]]
+        sub = fr.fork()
+        for k, v in lfr.env.items():
+            sub.env.setdefault(k, v)
+        names = [a.arg for a in node.args.args]
+        if len(names) != len(args):
+            return None
+        for n_, v in zip(names, args):
+            sub.env[n_] = v
+        return self.expr(node.body, sub)
 
     def e_Starred(self, e, fr):
         return T("starred", (tm._fz(self.expr(e.value, fr)),))
@@ -1211,7 +1234,7 @@ class Evaluator:
         if isinstance(fv, T) and fv.op == "ite":
             return tm.ite(fv.args[0], self.call_value(_unfz(fv.args[1]), pos, kw, e, fr),
                           self.call_value(_unfz(fv.args[2]), pos, kw, e, fr))
-        fr.summary.calls.append(("value:" + tm.show(fv), pos, kw, e, tuple(fr.guard), tuple(fr.facts)))
+        fr.summary.calls.append(("value:" + tm.show(fv), pos, kw, e, tuple(fr.guard), tuple(fr.facts), dict(fr.iters)))
         return tm.app("call", [fv] + pos, tuple(sorted(kw.items())))
 
     def call_ref(self, r, pos, kw, e, fr):
@@ -1221,7 +1244,7 @@ class Evaluator:
             return self.extern(r[1], pos, kw, e, fr)
         if r[0] == "class":
             name = r[1].name + "." + r[2]
-            fr.summary.calls.append((name, pos, kw, e, tuple(fr.guard), tuple(fr.facts)))
+            fr.summary.calls.append((name, pos, kw, e, tuple(fr.guard), tuple(fr.facts), dict(fr.iters)))
             return tm.app("new:" + name, pos, tuple(sorted(kw.items())))
         if r[0] == "const":
             return self.call_value(self.const(r[1].name, r[2]), pos, kw, e, fr)
@@ -1229,7 +1252,7 @@ class Evaluator:
 
     def call_fn(self, fi, pos, kw, e, fr, skip_self=False):
         q = fi.qualname
-        fr.summary.calls.append((q, pos, kw, e, tuple(fr.guard), tuple(fr.facts)))
+        fr.summary.calls.append((q, pos, kw, e, tuple(fr.guard), tuple(fr.facts), dict(fr.iters)))
         bound = self.bind_call(fi, pos, kw, skip_self=skip_self)
         prim = self.policy.prims.get(q)
         if prim is not None and bound is not None:
@@ -1250,7 +1273,8 @@ class Evaluator:
         fr.summary.hazards.extend((h[0], h[1], h[2], tuple(fr.guard) + tuple(h[3]), tuple(fr.facts) + tuple(h[4]), h[5],
                                    _merge_iters(fr.iters, h[6] if len(h) > 6 else {})) for h in sub.hazards)
         fr.summary.calls.extend((c[0], c[1], c[2], c[3], tuple(fr.guard) + tuple(c[4]),
-                                 tuple(fr.facts) + tuple(c[5] if len(c) > 5 else ())) for c in sub.calls)
+                                 tuple(fr.facts) + tuple(c[5] if len(c) > 5 else ()),
+                                 _merge_iters(fr.iters, c[6] if len(c) > 6 else {})) for c in sub.calls)
         # exits form an ordered decision list: the negation of a raise guard is a fact for the caller only while no
         # (conditional) return precedes it in the callee
         seen_return = False
@@ -1277,7 +1301,7 @@ class Evaluator:
     # ---- methods on values
     def method(self, recv, meth, pos, kw, e, fr):
         ty = tm.tyof(recv)
-        fr.summary.calls.append(("method:" + meth, [recv] + list(pos), kw, e, tuple(fr.guard), tuple(fr.facts)))
+        fr.summary.calls.append(("method:" + meth, [recv] + list(pos), kw, e, tuple(fr.guard), tuple(fr.facts), dict(fr.iters)))
         if isinstance(recv, T) and recv.op == "ite" and meth not in ("append",):
             return tm.ite(recv.args[0], self.method(_unfz(recv.args[1]), meth, pos, kw, e, fr),
                           self.method(_unfz(recv.args[2]), meth, pos, kw, e, fr))
@@ -1342,7 +1366,7 @@ class Evaluator:
         if meth == "copy" and not pos:
             return clone(recv)
         if meth in ("read", "write", "close", "tell", "seek", "truncate", "sendall", "recv", "send"):
-            fr.summary.calls.append(("io:" + meth, [recv] + pos, kw, e, tuple(fr.guard), tuple(fr.facts)))
+            fr.summary.calls.append(("io:" + meth, [recv] + pos, kw, e, tuple(fr.guard), tuple(fr.facts), dict(fr.iters)))
             rty = {"tell": tm.INT, "recv": tm.BYTES}.get(meth, tm.ANY)
             return T("io", (meth, tm._fz(recv), tuple(tm._fz(p) for p in pos), len(fr.summary.calls)), rty)
         # method on self or on an object of a class of the package
@@ -1354,7 +1378,7 @@ class Evaluator:
 
     # ---- externs (builtins / stdlib), by name
     def extern(self, name, pos, kw, e, fr):
-        fr.summary.calls.append((name, pos, kw, e, tuple(fr.guard), tuple(fr.facts)))
+        fr.summary.calls.append((name, pos, kw, e, tuple(fr.guard), tuple(fr.facts), dict(fr.iters)))
         n = name[9:] if name.startswith("builtins.") else name
         try:
             r = self._extern(n, pos, kw, e, fr)
@@ -1522,8 +1546,24 @@ class Evaluator:
             if seq is not None:
                 return tm.lor([tm.truth(x) for x in seq])
             return T("any", (tm._fz(a0),), tm.BOOL)
+        if n in ("map", "filter") and len(pos) == 2 and isinstance(pos[0], T) and pos[0].op == "lambda":
+            seq = _concrete_iter(pos[1])
+            if seq is not None and n == "map":
+                out = [self.apply_lambda(pos[0], [x], fr) for x in seq]
+                if all(o is not None for o in out):
+                    return out
+            d = fr.loopdepth
+            fr.loopdepth = d + 1
+            try:
+                body = self.apply_lambda(pos[0], [tm.bv(d)], fr)
+            finally:
+                fr.loopdepth = d
+            if body is not None:
+                if n == "map":
+                    return tm.mapt(tm._fz(body), pos[1])
+                return tm.mapt(tm.bv(d), pos[1], tm.truth(body))
         if n in ("map", "filter"):
-            return T(n, tuple(tm._fz(p) for p in pos), tm.LIST)
+            return T("b" + n, tuple(tm._fz(p) for p in pos), tm.LIST)
         if n in ("hashlib.sha256", "hashlib.sha512", "hashlib.sha1"):
             return T("hashobj", (n.split(".")[1], a0 if pos else b""))
         if n == "hashlib.new":
